@@ -4,7 +4,7 @@ from wiring import Profile
 
 MANIFEST = {
     "level": "proof",
-    "text": 'theorems: the further-matching loop equals the per-field function at every index (independence), qualifier soundness, ranking; correspondence with 1-4 fields per holder incl. optional empty fields first; the EXTENDED model (Model/FactoryX.v: Init methods that look components up, post-processors that short-circuit instantiation) carries every run-level invariant family as well (Proofs/FactoryX*.v, theorems *_extended) and is what the correspondence evaluates; scenarios end with Factory.GetComponents(), are restarted on the same App value, have another App started before or in the middle, and include crowds of 24..36 instances of one type; some ordinary components are also (do-nothing) factory or definition-registry post-processors that look at the registry, and named and unnamed instances of one type stand side by side; processor crowds (10..15 further Ordered user post-processors of pairwise different Order behind the built-in ones)',
+    "text": 'theorems: the further-matching loop equals the per-field function at every index (independence), qualifier soundness, ranking; correspondence with 1-4 fields per holder incl. optional empty fields first; the EXTENDED model (Model/FactoryX.v: Init methods that look components up, post-processors that short-circuit instantiation) carries every run-level invariant family as well (Proofs/FactoryX*.v, theorems *_extended) and is what the correspondence evaluates; scenarios end with Factory.GetComponents(), are restarted on the same App value, have another App started before or in the middle, and include crowds of 24..36 instances of one type; some ordinary components are also (do-nothing) factory or definition-registry post-processors that look at the registry, and named and unnamed instances of one type stand side by side, callbacks fail with the component in hand, func points name methods that take parameters, two instantiations of one generic type are registered under their default names; processor crowds (10..15 further Ordered user post-processors of pairwise different Order behind the built-in ones)',
     "design_ref": "DESIGN.md 5 C08, 4.3, Appendix A/D",
     "note": "trusted: Coq kernel + vm_compute; hand-written model (Model/Resolve.v, Factory.v, App.v) tied to the code by exact "
             "comparison of event log, wiring and lookups on generated scenarios; Python generator/Go code generator/wx runtime; "
